@@ -550,7 +550,8 @@ func (sp *subProcess) ceaseFlowMonitor(tracer tracing.ITracer) func(ctx context.
 	}
 }
 
-func (sp *subProcess) run(ctx context.Context, out tracing.ITracer) {
+func (sp *subProcess) run(ctx context.Context, out tracing.ITracer, sender tracing.ISenderHandle) {
+	defer sender.Done()
 	defer sp.cancel()
 	for {
 		select {
@@ -566,7 +567,9 @@ func (sp *subProcess) run(ctx context.Context, out tracing.ITracer) {
 					return
 				}
 			case nextActionMessage:
+				requestSender := out.RegisterSender()
 				go func() {
+					defer requestSender.Done()
 					sp.active.Add(1)
 					defer sp.active.Add(-1)
 
@@ -626,7 +629,9 @@ func (sp *subProcess) NextAction(ctx context.Context, flow Flow) chan IAction {
 		sender := sp.subTracer.RegisterSender()
 		tracer := sp.wr.tracer
 		go sp.ceaseFlowMonitor(sp.subTracer)(ctx, sender)
-		go sp.run(ctx, tracer)
+		// the loop and its activation goroutines send traces on the parent's tracer, which
+		// must not terminate while they may still do so
+		go sp.run(ctx, tracer, tracer.RegisterSender())
 	}
 
 	response := make(chan IAction, 1)
